@@ -10,60 +10,54 @@ per-record lemmas in `Lemmas/DnsMsg.lean`; all in namespace `NetVerif.Proofs.C36
 
 For every well-formed message `m` (canonical names, integer fields within their Go types,
 4/16-byte addresses, unknown bodies under types without a decoder; every record type of the
-package: A, AAAA, NS, CNAME, PTR, MX, TXT, SOA, SRV, OPT, SVCB, HTTPS, unknown):
-* without compression (the Builder's default) `Unpack (pack m) = m` exactly (`m` with the
-  `Type`/`Length` header fields that packing fills in);
-* with compression (`Message.Pack`, Builder + `EnableCompression`) the same holds unless
-  `Name.unpack` hits its pointer budget: the full statement is FALSE for the code as it is
-  (`message_full_false`, finding `ptr-depth`), `message_holds_partial` is what holds.
+package: A, AAAA, NS, CNAME, PTR, MX, TXT, SOA, SRV, OPT, SVCB, HTTPS, unknown), with and
+without compression (`Message.Pack`, Builder with and without `EnableCompression`):
+`Unpack (pack m) = m` (`m` with the `Type`/`Length` header fields that packing fills in).
+Before the `ptr-depth` repair (`Name.pack` now asks `compressionDepth` before it emits a
+pointer) this was false with compression; the old witness `deepMessage` is kept as an example.
 -/
 namespace NetVerif.Proofs.C36
 open NetVerif NetVerif.Model.Dns NetVerif.Proofs.Dns NetVerif.Proofs.DnsMsg
 
-/-- **Round trip without compression** (Builder without `EnableCompression`): whenever packing
-returns bytes, unpacking them returns the message. -/
+/-- C36, full strength, for either packer: whenever packing returns bytes, unpacking them
+returns the message. -/
+def MessageStatement : Prop :=
+  ∀ (m : Message) (comp : Option CompMap) (bytes : Bytes), (comp = none ∨ comp = some []) →
+    WFMessage m → packMessageWith m comp = .ok bytes →
+    ∃ l1 l2 l3, l1.length = m.answers.length ∧ l2.length = m.authorities.length ∧
+      l3.length = m.additionals.length ∧ unpackMessage bytes = .ok (normMessage m l1 l2 l3)
+
+/-- **Round trip**, with compression (`Message.Pack`, Builder + `EnableCompression`: `some []`)
+and without (`none`). -/
+theorem message_holds : MessageStatement :=
+  fun m comp bytes hcomp hwf hp => packMessage_spec m comp bytes hcomp hwf hp
+
+/-- `Unpack (Pack m) = m`. -/
+theorem message_roundtrip (m : Message) (bytes : Bytes) (hwf : WFMessage m)
+    (hp : packMessage m = .ok bytes) :
+    ∃ l1 l2 l3, l1.length = m.answers.length ∧ l2.length = m.authorities.length ∧
+      l3.length = m.additionals.length ∧ unpackMessage bytes = .ok (normMessage m l1 l2 l3) :=
+  packMessage_spec m (some []) bytes (Or.inr rfl) hwf hp
+
+/-- The Builder without `EnableCompression`. -/
 theorem message_roundtrip_nocomp (m : Message) (bytes : Bytes) (hwf : WFMessage m)
     (hp : packMessageWith m none = .ok bytes) :
     ∃ l1 l2 l3, l1.length = m.answers.length ∧ l2.length = m.authorities.length ∧
-      l3.length = m.additionals.length ∧ unpackMessage bytes = .ok (normMessage m l1 l2 l3) := by
-  rcases packMessage_spec m none bytes (Or.inl rfl) hwf hp with ⟨l1, l2, l3, h1, h2, h3, h⟩
-  refine ⟨l1, l2, l3, h1, h2, h3, ?_⟩
-  rcases h with h | ⟨hs, _⟩
-  · exact h
-  · simp at hs
-
-/-- C36 for `Message.Pack` (compression always on), full strength. FALSE (`message_full_false`). -/
-def MessageStatement : Prop :=
-  ∀ (m : Message) (bytes : Bytes), WFMessage m → packMessage m = .ok bytes →
-    ∃ l1 l2 l3, unpackMessage bytes = .ok (normMessage m l1 l2 l3)
-
-/-- **Round trip with compression, what holds**: `Unpack (Pack m)` is `m`, or `Unpack` fails
-with `errTooManyPtr` (the excluded region: a decidable predicate on the packed bytes). -/
-theorem message_holds_partial (m : Message) (bytes : Bytes) (hwf : WFMessage m)
-    (hp : packMessage m = .ok bytes) :
-    (∃ l1 l2 l3, l1.length = m.answers.length ∧ l2.length = m.authorities.length ∧
-      l3.length = m.additionals.length ∧ unpackMessage bytes = .ok (normMessage m l1 l2 l3)) ∨
-    unpackMessage bytes = .error .tooManyPtr := by
-  rcases packMessage_spec m (some []) bytes (Or.inr rfl) hwf hp with ⟨l1, l2, l3, h1, h2, h3, h⟩
-  rcases h with h | ⟨_, h⟩
-  · exact Or.inl ⟨l1, l2, l3, h1, h2, h3, h⟩
-  · exact Or.inr h
+      l3.length = m.additionals.length ∧ unpackMessage bytes = .ok (normMessage m l1 l2 l3) :=
+  packMessage_spec m none bytes (Or.inl rfl) hwf hp
 
 /-- **Builder with and without compression** decode to the same message (same header, questions,
 record names, classes, TTLs and bodies; only the `Length` header fields, which count packed
-bytes, may differ) - again up to the pointer budget. -/
+bytes, may differ). -/
 theorem builder_compression_same_message (m : Message) (b0 b1 : Bytes) (hwf : WFMessage m)
     (h0 : packMessageWith m none = .ok b0) (h1 : packMessageWith m (some []) = .ok b1) :
     ∃ l1 l2 l3 k1 k2 k3, unpackMessage b0 = .ok (normMessage m l1 l2 l3) ∧
-      (unpackMessage b1 = .ok (normMessage m k1 k2 k3) ∨ unpackMessage b1 = .error .tooManyPtr) := by
+      unpackMessage b1 = .ok (normMessage m k1 k2 k3) := by
   rcases message_roundtrip_nocomp m b0 hwf h0 with ⟨l1, l2, l3, _, _, _, hu0⟩
-  rcases packMessage_spec m (some []) b1 (Or.inr rfl) hwf h1 with ⟨k1, k2, k3, _, _, _, h⟩
-  refine ⟨l1, l2, l3, k1, k2, k3, hu0, ?_⟩
-  rcases h with h | ⟨_, h⟩
-  · exact Or.inl h
-  · exact Or.inr h
+  rcases message_roundtrip m b1 hwf h1 with ⟨k1, k2, k3, _, _, _, hu1⟩
+  exact ⟨l1, l2, l3, k1, k2, k3, hu0, hu1⟩
 
-/-- Witness of the finding at message level: twelve questions "a.", "a.a.", … -/
+/-- Old witness of finding `ptr-depth` at message level: twelve questions "a.", "a.a.", … -/
 def deepMessage : Message :=
   { hdr := { id := 0, response := false, opCode := 0, authoritative := false, truncated := false,
              recursionDesired := false, recursionAvailable := false, authenticData := false,
@@ -78,22 +72,16 @@ theorem deepMessage_wf : WFMessage deepMessage := by
   rcases hq with ⟨p, hp, rfl⟩
   exact ⟨deepNames_canonical p hp, by simp, by simp⟩
 
-theorem deepMessage_fails :
-    ∃ bytes, packMessage deepMessage = .ok bytes ∧ unpackMessage bytes = .error .tooManyPtr := by
-  refine ⟨(packMessage deepMessage).toOption.getD [], ?_, ?_⟩ <;> decide
+/-- The old witness now round-trips through `Message.Pack` (compression on) … -/
+theorem deepMessage_ok :
+    ∃ bytes, packMessage deepMessage = .ok bytes ∧ unpackMessage bytes = .ok deepMessage := by
+  refine ⟨(packMessage deepMessage).toOption.getD [], ?_, ?_⟩ <;> decide +kernel
 
-/-- **Finding `ptr-depth`** at message level. -/
-theorem message_full_false : ¬ MessageStatement := by
-  intro h
-  rcases deepMessage_fails with ⟨bytes, hp, hu⟩
-  rcases h deepMessage bytes deepMessage_wf hp with ⟨l1, l2, l3, hok⟩
-  rw [hu] at hok
-  cases hok
-
-/-- The same message goes through when built without compression (non-vacuity of
-`message_roundtrip_nocomp`, and the Builder default is not affected by the finding). -/
+/-- … and through the Builder without compression. -/
 theorem deepMessage_nocomp_ok :
     ∃ bytes, packMessageWith deepMessage none = .ok bytes ∧ unpackMessage bytes = .ok deepMessage := by
   refine ⟨(packMessageWith deepMessage none).toOption.getD [], ?_, ?_⟩ <;> decide +kernel
+
+example : ∃ bytes, packMessage deepMessage = .ok bytes := ⟨_, deepMessage_ok.choose_spec.1⟩
 
 end NetVerif.Proofs.C36
